@@ -61,6 +61,18 @@ pub fn exec(case: &Value) -> Value {
                 m2 = g.then(&m2);
             }
         }
+        // a uniform change of unit: everything shrunk by 2^-gs (exact), so that the determinant
+        // gets small although the transform is as well conditioned as before; observations
+        // are scaled back (exactly) to the integers of the specification
+        let gs = case.get("gs").and_then(|v| v.as_i64()).unwrap_or(0) as i32;
+        let u = 2f32.powi(gs);
+        if gs != 0 {
+            let shrink: M4 = scale(splat(1.0 / u));
+            m = shrink.compose(&m);
+            m2 = m2.then(&shrink);
+        }
+        let s = |x: f32| s(x * u);
+        let rows = |m: &M4| -> Vec<Vec<i64>> { (0..3).map(|i| (0..4).map(|j| s(m.0[i][j])).collect()).collect() };
         let probes = [[1.0f32, 0.0, 0.0], [0.0, 1.0, 0.0], [0.0, 0.0, 1.0], [2.0, -3.0, 1.0]];
         let pts: Vec<Vec<i64>> = probes.iter().map(|p| { let q = m.apply_pt(&pt3(p[0], p[1], p[2])); vec![s(q.x()), s(q.y()), s(q.z())] }).collect();
         let vecs: Vec<Vec<i64>> = probes.iter().map(|p| { let q = m.apply(&vec3(p[0], p[1], p[2])); vec![s(q.x()), s(q.y()), s(q.z())] }).collect();
@@ -70,10 +82,13 @@ pub fn exec(case: &Value) -> Value {
         if hasdet || isrot {
             let inv = m.inverse();
             let det = m.determinant();
-            o["det"] = json!((det as f64).round().clamp(-2e9, 2e9) as i64);
-            o["inv"] = json!(rows(&inv));
-            o["invm"] = json!(rows(&inv.compose(&m)));
-            o["minv"] = json!(rows(&m.compose(&inv)));
+            o["det"] = json!((det as f64 * (u as f64).powi(3)).round().clamp(-2e9, 2e9) as i64);
+            // inverse of the shrunk map: linear part grown by 2^gs, translation column unchanged
+            let s0 = |x: f32| self::s(x);
+            o["inv"] = json!((0..3).map(|i| (0..4).map(|j| if j < 3 { s0(inv.0[i][j] / u) } else { s0(inv.0[i][j]) }).collect::<Vec<_>>()).collect::<Vec<_>>());
+            let unscaled = |m: &M4| -> Vec<Vec<i64>> { (0..3).map(|i| (0..4).map(|j| s0(m.0[i][j])).collect()).collect() };
+            o["invm"] = json!(unscaled(&inv.compose(&m)));
+            o["minv"] = json!(unscaled(&m.compose(&inv)));
             let tr = m.transpose();
             o["tr"] = json!((0..3).map(|i| (0..3).map(|j| s(tr.0[i][j])).collect::<Vec<_>>()).collect::<Vec<_>>());
         }
@@ -114,6 +129,6 @@ pub fn gen(args: &Args, out: &mut dyn Write) {
         let path: Vec<Value> = (0..len)
             .map(|_| json!([if rot { rng.range(5, 8) } else { rng.range(1, 16) }, if rng.chance(1, 2) { "L" } else { "R" }]))
             .collect();
-        writeln!(out, "{}", json!({"k": format!("m{}-{}", args.seed, i), "path": path})).unwrap();
+        writeln!(out, "{}", json!({"k": format!("m{}-{}", args.seed, i), "path": path, "gs": if i % 3 == 2 { 7 } else { 0 }})).unwrap();
     }
 }
